@@ -162,7 +162,7 @@ func TrueBranches(v ssa.Value) []Branch {
 						continue
 					}
 					cb, isC := ConstBool(e)
-					if !isC || cb {
+					if (!isC || cb) && !falseOnEdge(e, x.Block().Preds[i], x.Block()) {
 						okAnd = false
 					}
 					// true on that edge: the constant true, or the edge is the
@@ -475,6 +475,15 @@ func RetVal(r *ssa.Return, idx int) ssa.Value {
 
 // trueOnEdge: boolean v is known true when control takes the edge pred -> b
 // (pred ends in `if v` and b is its true successor).
+// falseOnEdge: the edge pred -> b is the false edge of a test of v itself.
+func falseOnEdge(v ssa.Value, pred, b *ssa.BasicBlock) bool {
+	if len(pred.Instrs) == 0 || len(pred.Succs) != 2 {
+		return false
+	}
+	iff, ok := pred.Instrs[len(pred.Instrs)-1].(*ssa.If)
+	return ok && iff.Cond == v && pred.Succs[1] == b && pred.Succs[0] != b
+}
+
 func trueOnEdge(v ssa.Value, pred, b *ssa.BasicBlock) bool {
 	if len(pred.Instrs) == 0 || len(pred.Succs) != 2 {
 		return false
